@@ -1,7 +1,7 @@
 """C09 - the 'optimal' pathfinder really is optimal.
 
-Enumerated: all connected simple graphs up to isomorphism on n=3,4,5 (6
-thorough) vertices as networks x dangling output legs on every subset of <=2
+Enumerated: all connected simple graphs up to isomorphism on n=3,4,5 (thorough:
+6, and the trees / unicyclic graphs on 7) vertices as networks x dangling output legs on every subset of <=2
 (<=1 for the larger ones) vertices x hyper-edge variants (a triangle replaced by
 one 3-vertex hyper index) - filtered to 'nothing to pre-simplify' - x size
 assignments x 6 objectives x search_outer x initial cost_cap x both entry points.
@@ -19,7 +19,7 @@ LEVEL = "exploration"
 CLAIM = True
 TECHNIQUE = (
     "bounded exhaustive enumeration on the real code: all connected graphs "
-    "up to isomorphism (n<=5, 6 thorough) x output/hyper variants x size "
+    "up to isomorphism (n<=5; thorough: 6, and the trees and unicyclic graphs on 7 vertices) x output/hyper variants x size "
     "assignments x objectives x search_outer x cost_cap, vs brute force over "
     "ALL binary trees with an independent cost function"
 )
@@ -143,6 +143,13 @@ def units(tier, seed):
         for gi, edges in enumerate(graphs(n)):
             for part in range(parts):
                 us.append((n, gi, tier, seed, part, parts))
+    if tier == "thorough":
+        # n = 7 (10395 trees per network): the sparse graphs - trees and
+        # unicyclic graphs
+        for gi, edges in enumerate(graphs(7)):
+            if len(edges) <= 7:
+                for part in range(4):
+                    us.append((7, gi, tier, seed, part, 4))
     us.sort(key=lambda u: -u[0])
     return us
 
@@ -194,7 +201,7 @@ def work(unit):
     trees = [U.tree_internal_nodes(t) for t in U.all_trees(range(n))]
     caps = [1, 2, 1000, 10**12] if n <= 4 or tier == "thorough" else \
         [2, 10**12]
-    if n == 6:
+    if n >= 6:
         caps = [2, 10**12]
     for vi, (inputs, output) in enumerate(variants(n, edges, max_out)):
         if vi % parts != part:
